@@ -131,9 +131,6 @@ InheritSeq(MM, q, kind) ==
     IF Len(q) = 0 THEN MM
     ELSE InheritSeq(IF kind = "c" THEN InheritCells(MM, q[1]) ELSE InheritRefs(MM, q[1]),
                     Tail(q), kind)
-\* cells of all affected spaces first, then their references (instruction list)
-UpdateSpaces(MM, q) == InheritSeq(InheritSeq(MM, q, "c"), q, "r")
-
 \* references to objects that have disappeared hold dead handles
 Dangling(MM, v) ==
     CASE v[1] = "sp" -> v[2] \notin MM.sp
@@ -143,6 +140,11 @@ Kill(MM) ==
     [MM EXCEPT !.rm = [s \in DOMAIN @ |-> [n \in DOMAIN @[s] |->
         [@[s][n] EXCEPT !.v = IF Dangling(MM, @) THEN (IF @[1] = "ce" THEN DeadCe ELSE DeadObj) ELSE @,
                         !.dv = IF Dangling(MM, @) THEN (IF @[1] = "ce" THEN DeadCe ELSE DeadObj) ELSE @]]]]
+
+\* cells of all affected spaces first, then their references (instruction
+\* list); a reference derived from a base reference whose target was deleted
+\* meanwhile gets the dead handle
+UpdateSpaces(MM, q) == Kill(InheritSeq(Kill(InheritSeq(MM, q, "c")), q, "r"))
 
 -----------------------------------------------------------------------------
 (* Public operations                                                       *)
@@ -173,7 +175,7 @@ RelOutOfScope(MM, bs, t) ==
 AddBases(op) ==
     /\ Idle /\ op.op = "add_bases"
     /\ LET s == op.s
-           bs == [M.bases EXCEPT ![s] = @ \o op.bs]
+           bs == [M.bases EXCEPT ![s] = SelectSeq(@, LAMBDA b : b \notin Range(op.bs)) \o op.bs]
            aff == {s} \cup Subs(bs, s) IN
        IF \/ ~AcyclicB(bs) \/ \E t \in aff : MroB(bs, t) = Fail
           \/ \E t \in aff : Conflict(M, bs, t) \/ RelOutOfScope(M, bs, t)
